@@ -36,7 +36,9 @@ def cert_files() -> tuple[str, str]:
             .not_valid_after(now + datetime.timedelta(days=30))
             .add_extension(x509.SubjectAlternativeName([x509.DNSName("localhost")]), critical=False)
             .sign(key, hashes.SHA256()))
-    d = tempfile.mkdtemp(prefix="nv-urlcert-")
+    from .. import core as _core
+
+    d = _core.mkdtemp("nv-urlcert-")
     cf, kf = os.path.join(d, "cert.pem"), os.path.join(d, "key.pem")
     with open(cf, "wb") as f:
         f.write(cert.public_bytes(serialization.Encoding.PEM))
